@@ -270,6 +270,34 @@ func mutationsOf(bi int, base []byte, tier string, r *RNG) []mutation {
 		ms = append(ms, mutation{Base: bi, Kind: "set", Sets: []setSpec{{88, le(t)}, {104, le(sz)}},
 			Desc: fmt.Sprintf("header DescriptorsSize = %d, DescriptorsTotal = %d (their product wraps to the size)", sz, t)})
 	}
+	// the whole image renumbered to the top of the ID range (what a signature covers is relative to
+	// each group's lowest ID, so signatures stay valid): highest object ID = 0xFFFFFFFF, 0xFFFFFFFE
+	{
+		var maxID uint32
+		var used []int
+		for i := 0; i < int(dtotal); i++ {
+			o := doff + i*585
+			if base[o+4] != 0 {
+				used = append(used, o)
+				if id := binary.LittleEndian.Uint32(base[o+5:]); id > maxID {
+					maxID = id
+				}
+			}
+		}
+		for _, top := range []uint32{0xFFFFFFFF, 0xFFFFFFFE, 0x80000000} {
+			if maxID == 0 || maxID >= top {
+				continue
+			}
+			k := top - maxID
+			var sets []setSpec
+			for _, o := range used {
+				b := make([]byte, 4)
+				binary.LittleEndian.PutUint32(b, binary.LittleEndian.Uint32(base[o+5:])+k)
+				sets = append(sets, setSpec{o + 5, b})
+			}
+			ms = append(ms, mutation{Base: bi, Kind: "set", Sets: sets, Desc: fmt.Sprintf("every object ID moved up by %d (highest = %#x)", k, top)})
+		}
+	}
 	// … and descriptors likewise: a size with its padded size, at an offset inside the data section
 	for _, s := range slots {
 		o := doff + s*585
